@@ -503,6 +503,10 @@ def pack2d(RVARA, verbose=False):
         NEXP = INT(np.frexp(RMAX)[1])
     else:
         NEXP = INT(1)
+    # the scale 2**(7 - NEXP) must be a finite float32 (2**127 at most):
+    # differences below 2**-121 are packed with the exponent -120
+    if NEXP < -120:
+        NEXP = INT(-120)
     # precision range is -127 to 127 or 254
     PREC = np.float32((2.0**NEXP) / 254.0)
     SCEXP = np.float32(2.0**(7 - NEXP))
